@@ -10,7 +10,8 @@ from vf.props.c01 import variant
 RULE = ("cases = (configuration from the fixed-point option lattice) x (tensor); "
         "deterministic part: every configuration with its full sorted breakpoint "
         "walk; random part: Hypothesis tensors of rank 0..4 (sorted copies are "
-        "used for monotonicity). Non-trivial = tensor has an element within 2 ulp "
+        "used for monotonicity); plus Hypothesis (n x channels) tensors with per-channel magnitudes for the "
+        "data-dependent scales. Non-trivial = tensor has an element within 2 ulp "
         "of a rounding breakpoint (k+1/2)*step; distinct by hash of (config, tensor).")
 TAU_ULPS = 4.0
 ASSUMPTIONS = [
@@ -19,16 +20,21 @@ ASSUMPTIONS = [
     "tanh/sigmoid families: surrogate evaluated in float64; absolute tolerance "
     "u/2 + 4*2^-24*max(1,|s(x)|) (the library evaluates the surrogate in float32 before rounding; "
     "measured worst excess over u/2 on the unchanged tree is recorded in coverage.info.max_excess_ulps)",
-    "quantized_relu(use_sigmoid=1) and the 1-bit sign modes are checked for monotonicity only "
-    "(their quantized value is not a rounding of the ReLU surrogate / is C04's domain)",
+    "quantized_relu(use_sigmoid=1) is checked for monotonicity only (its quantized value is not a rounding "
+    "of the ReLU surrogate); the 1-bit sign modes are checked against sign(x)*code (either code at +-0 and for "
+    "float32 subnormal inputs, which TF kernels flush to zero)",
     "the legacy quantized_bits with constant alpha returns alpha*Q(x): the literal nearest-code/idempotence "
     "clauses are reported per signature (known finding), and y/alpha is additionally checked to be the "
     "nearest code of x on the unscaled grid so mutants stay detectable there",
     "idempotence compares numerically (0.0 == -0.0)",
+    "data-dependent scales (alpha='auto'/'auto_po2' of quantized_bits and quantized_linear, per-channel, channel maxima "
+    "from 2^-31 to 2^10): only the nearest-code clause, on the grid of the scale the quantizer exposes after the call, "
+    "tolerance step/2 + 8*2^-24*max(|x|, step) (the library divides by a non-power-of-two scale in float32)",
 ]
 BUDGET_S = {"quick": 80, "thorough": 900}
-REQUIRED_LABELS = {"quick": ["walk", "hyp", "near_breakpoint", "idempotence_checked", "monotone_checked", "nearest_checked"],
-                   "thorough": ["walk", "hyp", "near_breakpoint", "idempotence_checked", "monotone_checked", "nearest_checked"]}
+_REQ = ["walk", "hyp", "near_breakpoint", "idempotence_checked", "monotone_checked", "nearest_checked",
+        "sign_checked", "auto_scale", "auto_tiny_channel", "auto_near_breakpoint", "auto_saturating"]
+REQUIRED_LABELS = {"quick": _REQ, "thorough": _REQ}
 
 
 def _idempotent_family(cfg, m):
@@ -49,6 +55,8 @@ def oracle(cfg, xs, shape=None, stats=None):
     base["sr_infer"] = True     # stochastic-rounding flag set, inference phase
   if cfg.get("from") is not None:
     base["redeclared"] = True   # attributes re-assigned on a live object
+  if cfg["kw"].get("use_ste") is False:
+    base["nonste"] = True       # use_ste=False blend
   xs = np.asarray(xs, dtype=np.float32)
   try:
     q = G.build(cfg)
@@ -110,6 +118,23 @@ def oracle(cfg, xs, shape=None, stats=None):
       kk = x64 / ui if m["surr"] in ("id", "relu") else t / u
       bp = np.abs(kk - np.floor(kk) - 0.5) < 1e-5
       stats["near_breakpoint"] = bool(bp.any())
+  elif m["sign"]:
+    # 1-bit sign modes: the two codes are -u and +u, so the nearest code of a
+    # non-zero input is sign(x)*u (either code for +-0)
+    # (float32 subnormal inputs count as zero: TF kernels run flush-to-zero)
+    zero = np.abs(x64) < 2.0 ** -126
+    want = np.sign(x64) * u
+    bad = np.where(zero, np.abs(y64) != u, y64 != want)
+    tn = (x64 < 0) & (np.abs(x64) <= 2.0 ** -21 * ui)
+    for bmask, region in ((bad & tn & ~zero, "tiny_negative"), (bad & zero, "zero"), (bad & ~tn & ~zero, "regular")):
+      if bmask.any():
+        i = pick(bmask)
+        fails.append(("nearest_sign", dict(base, clause="nearest_sign", region=region),
+                      "x=%r y=%r codes=+-%r" % (xs[i], y[i], u), one(i)))
+    if stats is not None:
+      stats["sign_checked"] = True
+      kk = x64 / ui
+      stats["near_breakpoint"] = bool((np.abs(kk - np.floor(kk) - 0.5) < 1e-5).any())
   elif stats is not None:
     kk = x64 / ui
     stats["near_breakpoint"] = bool((np.abs(kk - np.floor(kk) - 0.5) < 1e-5).any())
@@ -159,6 +184,98 @@ def oracle(cfg, xs, shape=None, stats=None):
   return fails
 
 
+# ---------------------------------------------------------------------------
+# data-dependent scales: the nearest-code clause on the grid of the exposed scale
+# (the idempotence clause is stated for data-independent scales only)
+
+AUTO_TOL_ULPS = 8.0
+
+
+def auto_oracle(case, stats=None):
+  """case = {"auto": True, "cfg": {"cls","kw"}, "shape": [n, c], "xs": [...]}.
+  Output must be, per channel, within half a step (of the grid defined by the scale
+  the quantizer exposes after the call) of the input clipped to the end codes."""
+  from vf.gen import scaled as S  # pylint: disable=g-import-not-at-top
+  cfg = case["cfg"]
+  kw = cfg["kw"]
+  x = np.asarray(case["xs"], dtype=np.float32).reshape(case["shape"])
+  base = {"cls": cfg["cls"], "alpha": kw["alpha"], "clause": "nearest_auto"}
+  try:
+    q = S.build(cfg)
+    y = S.call(q, x)
+    sc = S.scale_of(q)
+  except Exception as e:  # pylint: disable=broad-except
+    return [("call_raises", dict(core.exc_signature(e), **base), repr(e)[:300])]
+  finally:
+    core.reset_globals()
+  b, i = kw["bits"], kw.get("integer", 0)
+  sym = int(kw.get("symmetric", 1))
+  if cfg["cls"] == "quantized_bits":
+    # documented: y = scale * z with z an integer in [-levels/2, levels/2] in units of
+    # 2^integer / 2^(bits-1) of the exposed scale
+    g = sc * 2.0 ** i / 2.0 ** (b - 1)
+    levels = (2 ** (b - 1) - 1) * 2 if sym else 2 ** b - 1
+    lo, hi = -levels / 2.0, levels / 2.0
+  else:
+    # documented: scale = quantization_scale / data_type_scale with
+    # data_type_scale = 2^(integer - bits + keep_negative); codes of the declared width
+    g = sc * 2.0 ** (i - b + 1)
+    lo, hi = -(2 ** (b - 1)) + sym, 2 ** (b - 1) - 1
+  x64, y64 = x.astype(np.float64), y.astype(np.float64)
+  fails = []
+  try:
+    g = np.broadcast_to(g, x64.shape)
+  except ValueError:
+    return [("scale_shape", dict(base), "scale shape %r vs input %r" % (np.shape(sc), x64.shape))]
+  if not (np.isfinite(y64).all() and np.isfinite(g).all() and (g > 0).all()):
+    return [("nonfinite_auto", dict(base), "non-finite output or non-positive scale")]
+  target = np.clip(x64, lo * g, hi * g)
+  err = np.abs(y64 - target)
+  tol = AUTO_TOL_ULPS * 2.0 ** -24 * np.maximum(np.abs(x64), g)
+  bad = err > g / 2 + tol
+  chmax = np.max(np.abs(x64), axis=0, keepdims=True) / 2.0 ** i
+  tiny = np.broadcast_to(chmax < 1e-5, x64.shape)
+  for bmask, regime in ((bad & tiny, "tiny_channel"), (bad & ~tiny, "regular")):
+    if bmask.any():
+      j = np.unravel_index(int(np.argmax(np.where(bmask, err / g, -1))), x64.shape)
+      fails.append(("nearest_auto", dict(base, regime=regime),
+                    "x=%r y=%r step=%r |err|/step=%.4f (channel max %r)" % (x[j], y[j], g[j], err[j] / g[j], float(np.max(np.abs(x64[:, j[1]]))))))
+  if stats is not None:
+    kk = x64 / g
+    stats["near_breakpoint"] = bool((np.abs(kk - np.floor(kk) - 0.5) < 1e-3).any())
+    stats["tiny_channel"] = bool(tiny.any())
+    stats["saturating"] = bool(((x64 < lo * g) | (x64 > hi * g)).any())
+  return fails
+
+
+def auto_strategy():
+  from hypothesis import strategies as st  # pylint: disable=g-import-not-at-top
+
+  @st.composite
+  def s(draw):
+    cls = draw(st.sampled_from(["quantized_bits", "quantized_linear"]))
+    b = draw(st.integers(2, 8))
+    i = draw(st.integers(0, min(3, b - 1)))
+    alpha = draw(st.sampled_from(["auto", "auto_po2"]))
+    kw = {"bits": b, "integer": i, "symmetric": 1, "keep_negative": True, "alpha": alpha}
+    if cls == "quantized_linear":
+      kw["symmetric"] = draw(st.sampled_from([0, 1]))
+    n = draw(st.integers(1, 8))
+    c = draw(st.integers(1, 4))
+    cols = []
+    for _ in range(c):
+      # channel magnitude 2^e: the epsilon neighbourhood (2^-23), tiny, and ordinary
+      e = draw(st.one_of(st.integers(-30, 10), st.integers(-26, -18), st.integers(-4, 4)))
+      mant = draw(st.lists(st.one_of(st.floats(-1.0, 1.0, width=32), st.sampled_from([0.0, 1.0, -1.0, 0.5, 0.75])),
+                           min_size=n, max_size=n))
+      top = draw(st.floats(0.5, 1.0, width=32)) * draw(st.sampled_from([-1.0, 1.0]))
+      mant[draw(st.integers(0, n - 1))] = top      # channel maximum in [2^(e-1), 2^e] by construction
+      cols.append([float(np.float32(v * 2.0 ** e)) for v in mant])
+    xs = [cols[cc][r] for r in range(n) for cc in range(c)]
+    return {"auto": True, "cfg": {"cls": cls, "kw": kw}, "shape": [n, c], "xs": xs}
+  return s()
+
+
 def _emit(ctx, fails):
   for sc, sig, detail, case in fails:
     ctx.fail(sc, sig, case, detail)
@@ -197,11 +314,27 @@ def run(ctx):
 
   n = (3000 if ctx.quick else 40000) // ctx.n + 1
   core.hyp_run(ctx, case_st(), orc, n, name="c02")
+
+  def orc_auto(case):
+    st = {}
+    fails = auto_oracle(case, stats=st)
+    labs = ["auto_scale", "auto:" + case["cfg"]["cls"] + ":" + case["cfg"]["kw"]["alpha"]] + \
+        ["auto_" + k for k, v in st.items() if v]
+    ctx.tick(case, labels=labs, nontrivial=st.get("near_breakpoint", False))
+    return fails
+
+  na = (1600 if ctx.quick else 30000) // ctx.n + 1
+  core.hyp_run(ctx, auto_strategy(), orc_auto, na, name="c02_auto")
   ctx.info["max_excess_ulps_w%d" % ctx.idx] = round(mx, 3)
 
 
 def replay(ctx, case):
   cfg = case["cfg"]
+  if case.get("auto"):
+    ctx.tick(case, labels=["replay"])
+    for sc, sig, detail in auto_oracle(case):
+      ctx.fail(sc, sig, case, detail)
+    return
   if case.get("walk"):
     m = G.model(cfg)
     fails = oracle(cfg, G.walk(cfg, m, full=(m["kmax"] - m["kmin"]) <= 70000))
